@@ -1,6 +1,6 @@
 (* C19 -- Writer bookkeeping matches the recording. *)
 From Coq Require Import ZArith List Bool.
-From DRF Require Import Model.WriterCore Model.PyWriter Proofs.WriterBasics Proofs.WriterInv.
+From DRF Require Import Model.WriterCore Model.PyWriter Proofs.WriterBasics Proofs.WriterInv Proofs.WriterInvU.
 Import ListNotations.
 Local Open Scope Z_scope.
 
@@ -29,3 +29,37 @@ Proof.
   - exact (cursor_one_past_highest c ops Hc Hch Hops).
 Qed.
 Print Assumptions C19_cursor_single_chunked_partial.
+
+(* the public rf_write: in every state reached by a history of rf_write calls (PyInv: the Python
+   position equals the C cursor equals the Spec cursor, and the files denote the Spec map), a call at or
+   before a written index raises ValueError and changes nothing; any other call succeeds and RETURNS
+   the Spec cursor -- one past the highest index written -- which is also the new next-available
+   sample.  Chunked layouts (gapped, or continuous with compression/checksum): *)
+From DRF Require Import Proofs.PyWriterProofs.
+
+Theorem C19_rf_write_history_chunked : forall c ops, vcfg c -> c_chunk c = true ->
+  Forall (fun op => match fst op with Some x => 0 <= x | None => True end) ops ->
+  PyInv (refines c) (fold_left (py_write_state c) ops py_init) (fold_left (spec_step_opt c) ops spec_init).
+Proof. exact py_rf_write_history_chunked. Qed.
+Print Assumptions C19_rf_write_history_chunked.
+
+(* ... and the un-chunked continuous layout *)
+Theorem C19_rf_write_history_unchunked : forall c ops, vcfg c -> c_chunk c = false -> c_cont c = true ->
+  Forall (fun op => match fst op with Some x => 0 <= x | None => True end) ops ->
+  PyInv (refines_u c) (fold_left (py_write_state c) ops py_init) (fold_left (spec_step_opt c) ops spec_init).
+Proof. exact py_rf_write_history_unchunked. Qed.
+Print Assumptions C19_rf_write_history_unchunked.
+
+(* one call, chunked layout: the returned value is the next available sample *)
+Theorem C19_rf_write_returns_next_available : forall c, vcfg c -> c_chunk c = true ->
+  forall ps s ns vec, PyInv (refines c) ps s -> 0 <= resolve s ns ->
+  let g := resolve s ns in
+  let '((cls, ret), ps') := py_rf_write FromCursor c ps ns vec in
+  if g <? s_cur s then cls = ValueError /\ ps' = ps
+  else cls = OK /\ ret = s_cur (spec_step c s (g, vec)) /\ PyInv (refines c) ps' (spec_step c s (g, vec)).
+Proof.
+  intros c Hc Hch. apply (py_write_step c (refines c)).
+  - intros st s (_ & H & _). exact H.
+  - apply chunked_R_call; assumption.
+Qed.
+Print Assumptions C19_rf_write_returns_next_available.
